@@ -32,7 +32,8 @@ ERRORS = ["a eq", "a eq 'x", "a $ b", "(a eq 1", "a eq 1)", "foo(1)", "contains(
           "not", "a/b/", "a in ()", "x.f(a=1, 2)", "geo.area(a)", "a eq 1 1", "'", "a eq duration'P1'", "",
           "any(x: x eq 1)", "a/any(x x eq 1)", "1 add", "a eq 12:30::15", "a..b eq 1", "now(1)", "a,b",
           "geography'POINT(1 2", "a eq geography'x", "duration'P1D", "a eq duration'PT5", "a eq 'it''s", "x in (1, 'a",
-          "geo.distance(a, geography'POINT(", "a eq 2020-01-01T", "a eq 123e4567-e89b-12d3-a456-", "f(a='"]
+          "geo.distance(a, geography'POINT(", "a eq 2020-01-01T", "a eq 123e4567-e89b-12d3-a456-", "f(a='",
+          "(" * 700 + "a", "not (" * 300 + "a", "f(" * 600 + "a"]
 VALID = ["a eq 1", "a/b/c eq 'x'", "not (a gt 1 or b lt 2)", "contains(a, 'x') and c in (1, 2)",
          "x/any(v: v/n eq 1)", "ns.f(p=1, q=2)", "a add 1 mul 2 eq 7", "-a eq 2020-01-01",
          "a eq duration'P1DT2H'", "tolower(a) eq 'b'", "a/all(x: x/y/any(z: z eq x/k))", "(1, 2, 3)", "(a,)",
